@@ -122,15 +122,15 @@ impl Exec {
         let ckpt = wd.join(format!("ckpt_{idx}.sql3"));
         std::fs::copy(&self.rig.db_path, &ckpt).unwrap();
         let node_ckpt = self.rig.node.lock().unwrap().clone();
-        let mut stack: Vec<Vec<usize>> = vec![vec![]];
+        // schedules are explored in order of their number of preemptions (all schedules with none, then with one, ...):
+        // buckets[p] holds the prefixes whose last choice makes it p preemptions
+        let mut buckets: Vec<std::collections::VecDeque<Vec<usize>>> = (0..=bound).map(|_| std::collections::VecDeque::new()).collect();
+        buckets[0].push_back(vec![]);
         let mut runs = 0usize;
         let mut randoms = 0usize;
         loop {
-            let (prefix, random) = if let Some(p) = stack.pop() {
-                if runs >= max {
-                    stack.clear();
-                    continue;
-                }
+            let next = if runs >= max { None } else { buckets.iter_mut().find(|b| !b.is_empty()).and_then(|b| b.pop_front()) };
+            let (prefix, random) = if let Some(p) = next {
                 (p, None)
             } else if randoms < nrandom {
                 randoms += 1;
@@ -159,7 +159,7 @@ impl Exec {
                                 if p <= bound {
                                     let mut np: Vec<usize> = d[..k].iter().map(|x| x.chosen).collect();
                                     np.push(*alt);
-                                    stack.push(np);
+                                    buckets[p].push_back(np);
                                 }
                             }
                         }
